@@ -211,6 +211,11 @@ def run(ctx):
     C02_hint.run(ctx)
     # <<< a_c02
 
+    # >>> w_c02 (wave 5): data-carrying enum variants, typed map keys, size hints / from_encoded_tape (props/C02_enum.py)
+    from props import C02_enum
+    C02_enum.run(ctx)
+    # <<< w_c02
+
     # scalar level: extracted Serde.text_scalar (typed hints with fall-back) against the real slice path
     from props import descalar
     ctx.correspond("scalar-hints", descalar.text_cases(ctx, ctx.scale(300, 3000)), nontrivial=nt)
